@@ -370,21 +370,25 @@ class WsgiApplication(HttpBase):
                                   _gen_http_headers(ctx.transport.resp_headers))
             return _ClosingIterator([HTTP_404.encode('ascii')], ctx.close)
 
-        if self._wsdl is None:
-            self._wsdl = self.doc.wsdl11.get_interface_document()
-
         ctx.transport.wsdl = self._wsdl
 
         if ctx.transport.wsdl is None:
             try:
                 self._mtx_build_interface_document.acquire()
 
+                # self._wsdl is only written with the lock held: a requester
+                # that stored a stale None after somebody else's build would
+                # have the document built once more.
                 ctx.transport.wsdl = self._wsdl
 
                 if ctx.transport.wsdl is None:
-                    self.doc.wsdl11.build_interface_document(url)
-                    ctx.transport.wsdl = self._wsdl = \
-                                        self.doc.wsdl11.get_interface_document()
+                    # it could have been built by other means
+                    wsdl = self.doc.wsdl11.get_interface_document()
+                    if wsdl is None:
+                        self.doc.wsdl11.build_interface_document(url)
+                        wsdl = self.doc.wsdl11.get_interface_document()
+
+                    ctx.transport.wsdl = self._wsdl = wsdl
 
             except Exception as e:
                 logger.exception(e)
